@@ -72,6 +72,35 @@ func (e *FnEnc) run() {
 		e.assumeValid(v)
 		e.assume(not(sx("=", n, "0")))
 	}
+	// owned parameters: the object is reachable only through the parameter (callers pass a non-escaping local or an
+	// owned parameter of their own - checked where they are encoded), so it is treated like a local object: unknown
+	// calls cannot touch it. Here: the parameter must not escape.
+	if e.con != nil {
+		for _, o := range e.con.Owned {
+			found := false
+			for _, p := range fn.Params {
+				if p.Name() != o {
+					continue
+				}
+				found = true
+				if e.valueEscapes(p) {
+					e.oblige(&Obligation{Name: "owned." + o + ".escapes", Kind: "protocol", Clause: "owned parameter " + o + " is not stored, captured, returned or passed to a function that does not declare it owned", Guard: "true", Goal: "false"})
+					continue
+				}
+				v := e.vals[p]
+				switch t := p.Type().Underlying().(type) {
+				case *types.Pointer:
+					e.locals = append(e.locals, localRef{e.sorts().CellHeap(t.Elem()).Name, v.T})
+				case *types.Map:
+					s := e.sorts()
+					e.locals = append(e.locals, localRef{s.MapDom(t.Key()).Name, v.T}, localRef{s.MapVal(t.Key(), t.Elem()).Name, v.T}, localRef{MapLen.Name, v.T})
+				}
+			}
+			if !found {
+				e.bindFail("owned "+o, "no such parameter")
+			}
+		}
+	}
 	if fn.Signature.Recv() != nil && len(fn.Params) > 0 {
 		if _, ok := fn.Params[0].Type().Underlying().(*types.Pointer); ok {
 			// a method is called on a non-nil receiver in every execution that reaches its body's field accesses
